@@ -865,7 +865,7 @@ func main() {
 		}
 		// first touches of fresh wide caches: batches of trials
 		nFirst := e.Scale(6, 60)           // batches per (variant, route)
-		firstTrials := e.Scale(2500, 6000) // trials per batch
+		firstTrials := e.Scale(1500, 6000) // trials per batch
 		for _, v := range []string{"std", "tiny"} {
 			for _, xh := range []bool{false, true} {
 				route := "simple"
